@@ -356,6 +356,13 @@ func (r *runner) refTargets(doc any, td *TD, node any, at string, visited map[st
 			at = ref
 		}
 		ps, _ := m["properties"].(map[string]any)
+		if at != "#" { // the root's names are judged by the property-names oracle
+			got, want := sortedKeys(ps), r.jsonNamesOf(td)
+			if !reflect.DeepEqual(got, want) && !(len(got) == 0 && len(want) == 0) {
+				*out = append(*out, refMismatch{At: at, Got: got, Want: want, GoType: rtype(td).String()})
+				return
+			}
+		}
 		for _, f := range fields {
 			if f.Tag == "-" {
 				continue
@@ -369,4 +376,44 @@ func (r *runner) refTargets(doc any, td *TD, node any, at string, visited map[st
 			}
 		}
 	}
+}
+
+// cyclic: a named struct type reachable from td reaches itself (the inline style then cuts the expansion at its depth
+// limit, which the in-place walk of refTargets cannot follow).
+func cyclic(td *TD) bool {
+	onPath := map[string]bool{}
+	done := map[string]bool{}
+	var walk func(d *TD) bool
+	walk = func(d *TD) bool {
+		if d == nil {
+			return false
+		}
+		switch d.K {
+		case "named":
+			if onPath[d.Name] {
+				return true
+			}
+			if done[d.Name] {
+				return false
+			}
+			onPath[d.Name] = true
+			for _, f := range registryEnv[d.Name].F {
+				if walk(f.T) {
+					return true
+				}
+			}
+			onPath[d.Name] = false
+			done[d.Name] = true
+			return false
+		case "struct":
+			for _, f := range d.F {
+				if walk(f.T) {
+					return true
+				}
+			}
+			return false
+		}
+		return walk(d.E)
+	}
+	return walk(td)
 }
